@@ -95,7 +95,7 @@ def env_level(ctx: Ctx):
     variants = [(n, o) for n in names for o in (("as-listed", "shuffled") if not ctx.thorough else ("as-listed", "shuffled", "reversed"))]
     # sibling-divergence family: the same scenarios with an action map that aims every target-taking action type at >= 2 siblings
     # (two files of a folder, two folders / services / applications of a host, two ports of a router), driven apart by the history
-    variants += [(n, "siblings") for n in [n for n in MASK_SCEN if n in shipped][: ctx.scale(3, 3)] for _ in range(ctx.scale(1, 3))]
+    variants += [(n, "siblings") for n in [n for n in MASK_SCEN if n in shipped][: ctx.scale(3, 3)] for _ in range(ctx.scale(1, 2))]
     if any(not o["ok"] for o in ctx.obligations):   # search stage: a tie or proof obligation is broken -> more sibling histories
         variants += [(n, "siblings") for n in names for _ in range(2)]
     for name, order in variants:
@@ -152,7 +152,7 @@ def env_level(ctx: Ctx):
             if sib is not None:   # drive SIBLINGS apart: delete one file of a folder, stop one service of a host, one folder of two …
                 trans = sibs.diverging(amap, sib["first"]) or trans
                 raws = sibs.raw_divergers(sib["hosts"])
-            for step in range(ctx.scale(25, 120) if order == "as-listed" else (ctx.scale(30, 90) if sib is not None else ctx.scale(12, 60))):
+            for step in range(ctx.scale(25, 120) if order == "as-listed" else (ctx.scale(30, 60) if sib is not None else ctx.scale(12, 60))):
                 sim = env.game.simulation
                 if raws and rng.chance(1, 5):
                     q = rng.choice(raws)
